@@ -354,6 +354,9 @@ func (g *gctx) listRules(p *gProp) {
 	}
 }
 
+// forcedClash: when >= 0, the next generated package takes this arm of the rare-class switch (0 case, 1 split, 2 enumdefault)
+var forcedClash = -1
+
 func genPackage(r *vh.Rand, awkward bool) *gPackage { return genPackageOpt(r, awkward, false) }
 
 func genPackageOpt(r *vh.Rand, awkward, decorate bool) *gPackage {
@@ -446,7 +449,21 @@ func genPackageOpt(r *vh.Rand, awkward, decorate bool) *gPackage {
 		}
 	}
 	// rare: names the compiler accepts and a later stage cannot take (NOTICE-4; recorded as known findings)
-	switch r.Intn(50) {
+	pickClash := r.Intn(50)
+	if forcedClash >= 0 { // the chain stream forces each class once per run so that no class depends on luck
+		pickClash, forcedClash = forcedClash, -1
+	}
+	defItem := false
+	switch pickClash {
+	case 2: // an enum field whose default filter names no option, in the item object of a list method
+		g.schemas = append(g.schemas,
+			gSchema{Name: "DefKind", Kind: "enum"},
+			gSchema{Name: "DefItem", Kind: "object", Props: []gProp{
+				{Name: "state", Ty: gTy{Kind: "enum", Ref: "DefKind"}, Attrs: []string{"listRules.filtering.filterable = true", `listRules.filtering.defaultFilters = ["NOPE"]`}},
+				{Name: "rank", Ty: gTy{Kind: "integer", Spec: "integer:INT32"}, Attrs: []string{"listRules.sorting.sortable = true"}},
+			}})
+		p.Clash = "enumdefault"
+		defItem = true
 	case 0: // enum options that differ only in case: protodesc / protocompile reject the camel-case conflict
 		g.schemas = append(g.schemas, gSchema{Name: "CaseClash", Kind: "enum", Props: []gProp{{Name: "@Active"}, {Name: "@ACTIVE"}}})
 		g.schemas[0].Props = append(g.schemas[0].Props, gProp{Name: "clashKind", Ty: gTy{Kind: "enum", Ref: "CaseClash"}})
@@ -474,6 +491,13 @@ func genPackageOpt(r *vh.Rand, awkward, decorate bool) *gPackage {
 			sv.Methods = append(sv.Methods, g.method(noun, k))
 		}
 		p.Services = append(p.Services, sv)
+	}
+	if defItem {
+		item := gTy{Kind: "object", Ref: "DefItem"}
+		sv := &p.Services[0]
+		sv.Methods = append(sv.Methods, gMethod{Name: "Get" + sv.Name + "Defaults", Verb: "GET", List: true, Path: "/defaults",
+			Req: []gProp{{Name: "page", Ty: gTy{Kind: "object", Ref: "j5.list.v1.PageRequest"}}, {Name: "query", Ty: gTy{Kind: "object", Ref: "j5.list.v1.QueryRequest"}}},
+			Resp: []gProp{{Name: "items", Ty: gTy{Kind: "array", Item: &item}}, {Name: "page", Ty: gTy{Kind: "object", Ref: "j5.list.v1.PageResponse"}}}})
 	}
 	if p.FlatHost != "" {
 		// the host is reached through a reference from a response (it is not itself a request / response root)
